@@ -48,6 +48,7 @@ def build_labeled(mc, rp):
     sl, al = labels(rp.get("labels", "int"), n, nA)
     objs = rp.get("dist_objects", False)
     trans = {}
+    shared_rows = {}
     for k, row in mc["trans"].items():
         s, a = map(int, k.split(","))
         ps = [Fraction(p) for _, p in row]
@@ -57,6 +58,9 @@ def build_labeled(mc, rp):
             d = DictDistribution.uniform([sl[ns] for ns, _ in row])
         else:
             d = DictDistribution({sl[ns]: fl(p) for ns, p in row})
+        if rp.get("dist_shared"):          # equal rows hand out ONE distribution object
+            key = repr(sorted(d.items(), key=repr))
+            d = shared_rows.setdefault(key, d)
         trans[(sl[s], al[a])] = d
     rew = {}
     for k, r in mc["reward"].items():
@@ -96,7 +100,7 @@ def one(case, pl):
     hv = [fl(x) for x in case["heuristic"]]
     if rp.get("int_numbers"):
         hv = [int(x) if float(x).is_integer() else x for x in hv]
-    sl0, al0 = labels(rp.get("labels", "int"), mdps[0]["n"], mdps[0]["nA"])
+    sl0, al0 = labels(rp.get("labels", "int"), max(m["n"] for m in mdps), max(m["nA"] for m in mdps))
     sidx = {lab: i for i, lab in enumerate(sl0)}
     hidx = {lab: hv[i] for i, lab in enumerate(sl0)}
     L = {}                       # per-plan_on log state (reset before every call)
@@ -108,80 +112,94 @@ def one(case, pl):
         def end_of_lrtdp_timestep(self, localvars):
             L["counters"]["steps"] += 1
 
-    mg = Fraction(case["margin"])
-    kwargs = {}
-    if rp.get("max_trial_length") is not None:
-        kwargs["max_trial_length"] = int(rp["max_trial_length"])
-    planner = LRTDP(heuristic=lambda s: hidx[s],
-                    bellman_error_margin=(int(mg) if rp.get("int_numbers") and mg.denominator == 1 else float(mg)),
-                    iterations=int(case["iterations"]), randomize_action_order=bool(case["randomize"]),
-                    event_listener_class=(None if rp.get("no_listener") else Rec),
-                    seed=(None if rp.get("seed_none") else int(case["seed"])), **kwargs)
-    maxops = int(case.get("max_log", 4000))
+    def new_planner():
+        mg = Fraction(case["margin"])
+        kwargs = {}
+        if rp.get("max_trial_length") is not None:
+            kwargs["max_trial_length"] = int(rp["max_trial_length"])
+        planner = LRTDP(heuristic=lambda s: hidx[s],
+                        bellman_error_margin=(int(mg) if rp.get("int_numbers") and mg.denominator == 1 else float(mg)),
+                        iterations=int(case["iterations"]), randomize_action_order=bool(case["randomize"]),
+                        event_listener_class=(None if rp.get("no_listener") else Rec),
+                        seed=(None if rp.get("seed_none") else int(case["seed"])), **kwargs)
+        maxops = int(case.get("max_log", 4000))
 
-    def emit(op):
-        if len(L["ops"]) < maxops:
-            L["ops"].append(op)
-        else:
-            L["overflow"] = True
+        def emit(op):
+            if len(L["ops"]) < maxops:
+                L["ops"].append(op)
+            else:
+                L["overflow"] = True
 
-    def sync_absorbing():
-        # states marked solved by the trial loop itself (absorbing successors)
-        for s, v in list(planner.res.solved.items()):
-            if v and s not in L["known"]:
-                L["known"].add(s)
-                emit(["A", sidx[s]])
+        def sync_absorbing():
+            # states marked solved by the trial loop itself (absorbing successors)
+            for s, v in list(planner.res.solved.items()):
+                if v and s not in L["known"]:
+                    L["known"].add(s)
+                    emit(["A", sidx[s]])
 
-    orig_update = planner._bellman_update
-    orig_check = planner._check_solved
-    orig_teardown = planner._tear_down_plan_on
+        orig_update = planner._bellman_update
+        orig_check = planner._check_solved
+        orig_teardown = planner._tear_down_plan_on
 
-    def upd(m, s):
-        sync_absorbing()
-        orig_update(m, s)
-        emit(["U", sidx[s], fj(planner.res.V[s])])
+        def upd(m, s):
+            sync_absorbing()
+            if not L.get("inchk"):
+                L["tsteps"] = L.get("tsteps", 0) + 1       # a trial time step (works without a listener)
+            orig_update(m, s)
+            emit(["U", sidx[s], fj(planner.res.V[s])])
 
-    def chk(m, s):
-        sync_absorbing()
-        ops = L["ops"]
-        before = list(planner.res.solved.keys())
-        mark = len(ops)
-        emit(["C", sidx[s], None, None])
-        flag = orig_check(m, s)
-        if flag:
-            closed = [k for k in planner.res.solved.keys() if k not in before]
-            for k in closed:
-                L["known"].add(k)
-            closed = [sidx[k] for k in closed]
-        else:
-            closed = [o[1] for o in ops[mark + 1:] if o[0] == "U"][::-1]
-        if mark < len(ops):
-            ops[mark] = ["C", sidx[s], bool(flag), closed]
-        return flag
+        def chk(m, s):
+            sync_absorbing()
+            ops = L["ops"]
+            before = list(planner.res.solved.keys())
+            mark = len(ops)
+            emit(["C", sidx[s], None, None])
+            L["inchk"] = True
+            try:
+                flag = orig_check(m, s)
+            finally:
+                L["inchk"] = False
+            if flag:
+                closed = [k for k in planner.res.solved.keys() if k not in before]
+                for k in closed:
+                    L["known"].add(k)
+                closed = [sidx[k] for k in closed]
+            else:
+                closed = [o[1] for o in ops[mark + 1:] if o[0] == "U"][::-1]
+            if mark < len(ops):
+                ops[mark] = ["C", sidx[s], bool(flag), closed]
+            return flag
 
-    def teardown(m, heuristic):
-        sync_absorbing()
-        res = planner.res
-        # greedy action recomputed from the FINAL table for the states the planner labelled
-        # (only states with a recorded action order: no extra random draws)
-        L["greedy"] = {s: planner.policy(m, s) for s in L["sl"]
-                       if res.solved[s] and s in res.action_orders}
-        return orig_teardown(m, heuristic)
+        def teardown(m, heuristic):
+            sync_absorbing()
+            res = planner.res
+            # greedy action recomputed from the FINAL table for the states the planner labelled
+            # (only states with a recorded action order: no extra random draws)
+            L["greedy"] = {s: planner.policy(m, s) for s in L["sl"]
+                           if res.solved[s] and s in res.action_orders}
+            return orig_teardown(m, heuristic)
 
-    orig_trial = planner.lrtdp_trial
+        orig_trial = planner.lrtdp_trial
 
-    def trial(m, s):
-        L["ntrials"] += 1
-        return orig_trial(m, s)
+        def trial(m, s):
+            L["ntrials"] += 1
+            return orig_trial(m, s)
 
-    planner._bellman_update = upd
-    planner._check_solved = chk
-    planner._tear_down_plan_on = teardown
-    planner.lrtdp_trial = trial
+        planner._bellman_update = upd
+        planner._check_solved = chk
+        planner._tear_down_plan_on = teardown
+        planner.lrtdp_trial = trial
+        return planner
+
+    planner = new_planner()
 
     outs = []
     built = []                   # equal chain entries reuse the SAME MDP object
-    for mc in mdps:
+    held = []                    # (result object, labels, ...) of every step, re-queried after the LAST call
+    chain = "chain" in case
+    for step, mc in enumerate(mdps):
+        if chain and rp.get("fresh_planner_last") and step == len(mdps) - 1:
+            planner = new_planner()      # a second object of the class in the same process, after the first was used
         prev = next((b for b in built if b[0] == mc), None)
         if prev is not None:
             mdp, sl, al = prev[1:]
@@ -204,10 +222,11 @@ def one(case, pl):
         after_plan = snap()
         mutated = [k for k in before_plan if repr(before_plan[k]) != repr(after_plan[k])]
         keys = [i for i in range(n) if sl[i] in res.V]
-        returned = []
-        for i in range(n):
-            d = [(a, pr) for a, pr in res.policy.action_dist(sl[i]).items() if pr != 0]
-            returned.append(aidx[d[0][0]] if len(d) == 1 else None)
+        def ask_policy(states, res=res, sl=sl, aidx=aidx):
+            return {i: [[aidx[a], fj(p)] for a, p in res.policy.action_dist(sl[i]).items()] for i in states}
+        # in a chain only every other state is queried now; all states are (re-)queried after the last call
+        early = ask_policy(range(0, n, 2) if chain else range(n))
+        held.append((res, sl, n, ask_policy, early))
         sa = getattr(res, "solved_action", None)
         outs.append({
             "n": n,
@@ -216,15 +235,22 @@ def one(case, pl):
             "solved": [bool(res.solved[sl[i]]) for i in range(n)],
             "action_orders": {str(sidx[s]): [aidx[a] for a in v] for s, v in res.action_orders.items()},
             "greedy": {str(sidx[s]): aidx[a] for s, a in L["greedy"].items()},   # recomputed from the FINAL table
-            "returned_action": returned,                                     # what res.policy plays (None: not deterministic)
             "solved_action": None if sa is None else {str(sidx[s]): aidx[a] for s, a in sa.items()},
             "Q": {str(i): {str(aidx[a]): fj(res.Q[sl[i]][a]) for a in mdp.actions(sl[i])} for i in keys},
-            "policy": [[[aidx[a], fj(p)] for a, p in res.policy.action_dist(sl[i]).items()] for i in range(n)],
             "initial_value": fj(res.initial_value),
             "converged_attr": (str(res.converged) if hasattr(res, "converged") else "missing"),
-            "trials": L["ntrials"], "steps": L["counters"]["steps"],
+            "trials": L["ntrials"], "steps": L.get("tsteps", 0),
             "ops": L["ops"], "ops_overflow": L["overflow"], "mutated": mutated,
         })
+    for out, (res, sl, n, ask_policy, early) in zip(outs, held):
+        late = ask_policy(range(n)) if chain else early
+        out["policy"] = [late[i] for i in range(n)]
+        nz = [[x for x in late[i] if x[1] != [0, 1]] for i in range(n)]
+        out["returned_action"] = [(z[0][0] if len(z) == 1 else None) for z in nz]   # what res.policy plays (None: not deterministic)
+        # results of an EARLIER call re-read after the later calls: must not have moved
+        stale = [i for i in early if early[i] != late[i]]
+        stale += [i for i in range(n) if fj(res.V[sl[i]]) != out["V"][i] or bool(res.solved[sl[i]]) != out["solved"][i]]
+        out["stale"] = sorted(set(stale))
     if "chain" in case:
         return {"chain": outs}
     return outs[0]
